@@ -109,7 +109,7 @@ CHECKS = {
              "the 10-pass reweighting from the zero curve with one more solve, equals the curve the loop stopped at, and is a fixed "
              "point of the reweighting when the loop stopped on an unchanged pass; every such fixed point is the expectile curve - the "
              "unique minimiser of sum w_i (p if y_i > z_i else 1-p)(y_i - z_i)^2 + lambda |D2 z|^2 (convexity with modulus min(p, 1-p), "
-             "Proofs/Expectile.v) - for 0 < p < 1, n >= 4, two positive weights. The binary64 instance is compared bit-for-bit "
+             "Proofs/Expectile.v) - for 0 < p < 1, n >= 4, two positive weights; at p = 1/2 the curve is the PLS curve for 2 lambda. The binary64 instance is compared bit-for-bit "
              "with the compiled kernels and the whits accessor (s / sgrid incl. -inf / p, three dim orders); an independent exact "
              "(Fraction) PLS / 10-pass expectile computation is held against the implementation with the +-1-at-ties rule.",
         ref="7 (C03)",
